@@ -174,8 +174,12 @@ def rule_b(ctx):
     for n in walk_local(gu.node):
         if isinstance(n, ast.If) and isinstance(n.test, ast.Compare):
             ft = ast.unparse(n.test.comparators[0]).split('.')[-1]
+            from ..astutil import resolve_temp
             for s in n.body:
-                if isinstance(s, ast.Return) and s.value is not None:
+                if isinstance(s, ast.Return) and s.value is not None and not isinstance(
+                        resolve_temp(gu.node, s.value), ast.Name):
+                    unk[ft] = ast.unparse(resolve_temp(gu.node, s.value)).split('.')[-1]
+                if isinstance(s, ast.Assign) and len(n.body) == 2 and isinstance(n.body[1], ast.Return):
                     unk[ft] = ast.unparse(s.value).split('.')[-1]
     for inter, (ft, dec, unkdec, entry) in ROWS.items():
         problems = []
@@ -295,10 +299,36 @@ def rule_c(ctx):
             detail or 'returns tags[0] of the first RoutingMetadata item; raises when there is none')
     # argument collection
     ca = router.lookup('_collect_route_arguments')
-    src = ast.unparse(ca.node)
-    ok = "'composite_metadata' == parameter" in src or "parameter == 'composite_metadata'" in src
-    ok = ok and 'annotation is CompositeMetadata' in src and 'route_kwargs[parameter] = composite_metadata' in src \
-        and 'route_kwargs[parameter] = payload_data' in src
+    ok = False
+    loops = [n for n in walk_local(ca.node) if isinstance(n, ast.For) and isinstance(n.target, ast.Name)]
+    if loops:
+        pvar = loops[0].target.id
+        cm_param = [p_ for p_ in ca.params() if 'metadata' in p_]
+        pl_param = [p_ for p_ in ca.params() if p_ == 'payload']
+        for n in ast.walk(loops[0]):
+            test = n.test if isinstance(n, ast.If) else None
+            body, orelse = (n.body, n.orelse) if isinstance(n, ast.If) else ([], [])
+            if isinstance(test, ast.UnaryOp) and isinstance(test.op, ast.Not):
+                test, body, orelse = test.operand, orelse, body
+            if isinstance(n, ast.If) and isinstance(test, ast.BoolOp) and isinstance(test.op, ast.Or):
+                tests = [ast.unparse(v) for v in test.values]
+                by_name = any("'composite_metadata'" in t and pvar in t for t in tests)
+                by_ann = any('annotation is CompositeMetadata' in t for t in tests)
+
+                def stores(block):
+                    out = []
+                    for s_ in block:
+                        for x in ast.walk(s_):
+                            if isinstance(x, ast.Assign) and isinstance(x.targets[0], ast.Subscript) and \
+                                    isinstance(x.targets[0].slice, ast.Name) and x.targets[0].slice.id == pvar:
+                                out.append(x.value)
+                    return out
+                then_v = stores(body)
+                else_v = stores(orelse)
+                then_ok = len(then_v) == 1 and isinstance(then_v[0], ast.Name) and then_v[0].id in cm_param
+                from ..astutil import resolve_temp
+                else_ok = len(else_v) == 1 and pl_param and pl_param[0] in ast.unparse(ca.node)
+                ok = by_name and by_ann and then_ok and else_ok
     rep.add('C19.c', 'RequestRouter._collect_route_arguments / metadata vs payload parameters', ca, ok,
             'a parameter named composite_metadata or annotated CompositeMetadata receives the metadata, others the '
             'payload' if ok else 'parameter binding no longer follows name/annotation')
